@@ -151,7 +151,7 @@ func checkValueRecipe(r *vgen.ValRecipe, golden []byte) (enc []byte, msg string)
 		}
 		// cadence's own equality, where the value is equatable
 		// (a type value without a type is deliberately never Equal to anything)
-		if eq, ok := v.(interpreter.EquatableValue); ok && !(r.K == "type" && r.Type == nil) {
+		if eq, ok := v.(interpreter.EquatableValue); ok && !strings.Contains(want, `{"k":"type"}`) {
 			func() {
 				defer func() {
 					if p := recover(); p != nil {
